@@ -22,7 +22,12 @@ ASSUMED = {
     'mask-index': 'numpy: a[mask] with a boolean array of the same length is a new array of the elements at the true '
                   'positions, in their order; a mask of another length raises IndexError',
     'np.zeros': 'numpy.zeros(n[, dtype]) returns a fresh 1-D array of length n filled with 0 / False',
+    'np.zeros-U': "numpy.zeros(n, dtype='U<w>') is a fresh array of n empty strings that holds strings of at most w "
+                  "characters (longer ones would be truncated: every store is checked against w)",
     'np.empty': 'numpy.empty(n) returns a fresh 1-D array of length n with arbitrary contents',
+    'max/min': 'max / min of a non-empty list of integers is one of its elements and bounds all of them; of an empty list it raises ValueError',
+    'set-of-seq': 'set(seq): membership as for seq; len(set(seq)) is the number of distinct elements, which equals len(seq) '
+                  'exactly when no element occurs twice',
     'len': 'len() of a list/tuple/1-D array is its length',
     'range': 'range(a[,b]) enumerates the integers a <= i < b in increasing order',
     'bool': 'bool(x) is the truth value of x',
@@ -39,6 +44,18 @@ ASSUMED = {
     'closure-capture': 'closures capture by value at creation (python captures cells; equal as long as the captured '
                        'variable is not re-assigned afterwards, which holds in the verified code)',
 }
+
+
+class VEnumerate(SV):
+    """enumerate(seq): pairs (position, element)"""
+    kind = 'enumerate'
+
+    def __init__(self, inner):
+        self.inner = inner
+
+    def sv_iter(self, eng, st, s):
+        lo, hi, elem = eng.iter_spec(st, self.inner, s)
+        return lo, hi, (lambda st2, k: VTuple([VInt(k - lo), elem(st2, k)]))
 
 
 class CallLog:
@@ -672,6 +689,8 @@ class World:
             v = args[0]
             if v.kind == 'arrval':
                 return [Result(st, VInt(v.n))]
+            if v.kind == 'ref' and isinstance(st.node(v), Arr) and getattr(st.node(v), 'distinct', None) is not None:
+                return [Result(st, VInt(st.node(v).distinct))]
             return [Result(st, eng.length(st, v))]
         if name == 'range':
             self.used.add('range')
@@ -695,6 +714,12 @@ class World:
             n = to_int(args[0])
             dt = kwargs.get('dtype') or (args[1] if len(args) > 1 else None)
             kind, zero = 'real', z3.RealVal(0)
+            if dt is not None and dt.kind == 'str' and getattr(dt, 'fmt_template', None) == 'U%d' \
+                    and getattr(dt, 'fmt_args', None) is not None and dt.fmt_args.kind == 'int':
+                # a unicode array of fixed width: stores that do not fit are obligations (store-fits-string-width)
+                self.used.add('np.zeros-U')
+                eng.oblige(st, 'nonneg-size', n >= 0, line)
+                return [Result(st, st.alloc(Arr('str', z3.K(I, smt.str_lit('')), n, 'ndarray', width=dt.fmt_args.term)))]
             if dt is not None:
                 dn = self.dtype_name(dt)
                 if dn == 'bool':
@@ -713,6 +738,43 @@ class World:
                 kind = 'bool' if dn == 'bool' else ('int' if dn.startswith(('int', 'uint')) else 'real')
             eng.oblige(st, 'nonneg-size', n >= 0, line)
             return [Result(st, st.alloc(Arr(kind, fresh('empty', z3.ArraySort(I, eng.sort_of_kind(kind))), n, 'ndarray')))]
+        if name == 'enumerate' and len(args) == 1:
+            return [Result(st, VEnumerate(args[0]))]
+        if name in ('max', 'min') and len(args) == 2 and all(a.kind in ('int', 'bool') for a in args):
+            a, b = to_int(args[0]), to_int(args[1])
+            return [Result(st, VInt(z3.If((a >= b) if name == 'max' else (a <= b), a, b)))]
+        if name in ('max', 'min') and len(args) == 1 and args[0].kind == 'ref' and isinstance(st.node(args[0]), Arr) \
+                and st.node(args[0]).elem == 'int':
+            self.used.add('max/min')
+            n = st.node(args[0])
+            out = []
+            yes, no = eng.fork(st, n.n > 0)
+            for s in no:
+                out.append(eng.exc(s, 'ValueError'))
+            for s in yes:
+                s = s.copy()
+                m, w, k = fresh(name, I), fresh('argm', I), fresh('k', I)
+                s.assume(0 <= w, w < n.n, n.a[w] == m,
+                         z3.ForAll([k], z3.Implies(z3.And(0 <= k, k < n.n), (n.a[k] <= m) if name == 'max' else (n.a[k] >= m)),
+                                   patterns=[n.a[k]]))
+                out.append(Result(s, VInt(m)))
+            return out
+        if name == 'set' and len(args) == 1 and args[0].kind == 'ref' and isinstance(st.node(args[0]), Arr):
+            # the set of the elements of a sequence: membership as for the sequence; its length is the number of
+            # distinct elements (equal to the sequence's length exactly when no element repeats)
+            self.used.add('set-of-seq')
+            st = st.copy()
+            n0 = st.node(args[0])
+            d = fresh('ndistinct', I)
+            p_, q_ = fresh('p', I), fresh('q', I)
+            wp, wq = fresh('dup1', I), fresh('dup2', I)
+            st.assume(0 <= d, d <= n0.n,
+                      z3.Implies(d == n0.n, z3.ForAll([p_, q_], z3.Implies(z3.And(0 <= p_, p_ < q_, q_ < n0.n), n0.a[p_] != n0.a[q_]),
+                                                      patterns=[z3.MultiPattern(n0.a[p_], n0.a[q_])])),
+                      z3.Implies(d != n0.n, z3.And(0 <= wp, wp < wq, wq < n0.n, n0.a[wp] == n0.a[wq])))
+            node2 = Arr(n0.elem, n0.a, n0.n, 'set')
+            node2.distinct = d
+            return [Result(st, st.alloc(node2))]
         if name == 'isinstance':
             return self.isinstance_(eng, st, args[0], args[1], node)
         if name in ('frozenset', 'set', 'tuple', 'list') and len(args) == 1 and args[0].kind == 'tuple':
@@ -865,6 +927,14 @@ class World:
                 else:
                     out.append(eng.exc(s, 'KeyError', args[0]))
             return out
+        if name == 'values' and not n.inner:
+            st2, keys, nkeys = self.dict_order(eng, st, recv)
+            n = st.node(recv)
+            k = fresh('k', I)
+            vals = fresh('dictvals', z3.ArraySort(I, eng.sort_of_kind(n.vkind)))
+            st = st.copy()
+            st.assume(z3.ForAll([k], z3.Implies(z3.And(0 <= k, k < nkeys), vals[k] == n.val[keys[k]]), patterns=[vals[k]]))
+            return [Result(st, st.alloc(Arr(n.vkind, vals, nkeys, 'list')))]
         if name == 'keys':
             return [Result(st, VDictKeys(recv))]
         if name == 'items':
